@@ -478,3 +478,52 @@ def rule_MK2(ctx, rep, scope=None):
                         f'2^({" / ".join(map(repr, cands))}); it must reach k bits above it, otherwise the opened value depends visibly on the secret')
     if scope is None and n < 12:
         raise AnalysisError(f'MK2: only {n} statistically masked openings analysed (expected >= 12)')
+
+
+# ---------------------------------------------------------------------------------- MK5
+def rule_MK5(ctx, rep):
+    """contributor count: a bounded random value is the sum of one contribution per sender (t+1 senders without
+    PRSS) or per key subset (comb(m, t) subsets with PRSS); each contribution is bounded by bound // that count,
+    so that the sum stays below the bound (no wrap-around modulo the field) and above bound/2 in magnitude."""
+    model = ctx.model
+    n = 0
+    for q in ('_randoms', '_np_randoms'):
+        fn = model.func('runtime::Runtime.' + q)
+        ds = [s for s in iter_nodes(fn.node) if isinstance(s, ast.Assign) and norm(s.targets[0]) == 'd']
+        uses = [s for s in iter_nodes(fn.node) if isinstance(s, ast.Assign) and norm(s.targets[0]) == 'bound' and 'bound // d' in norm(s.value)]
+        n += 1
+        good = False
+        if len(ds) == 1 and isinstance(ds[0].value, ast.IfExp) and uses:
+            v = ds[0].value
+            t = norm(v.test)
+            a, b = norm(v.body), norm(v.orelse)
+            if t == 'self.options.no_prss' and a == 't + 1' and b == 'math.comb(m, t)':
+                good = True
+            if t == 'not self.options.no_prss' and b == 't + 1' and a == 'math.comb(m, t)':
+                good = True
+        if good:
+            rep.ok('MK5', fn, ds[0], 'each contribution is bounded by bound // (number of contributions): t+1 senders, or comb(m, t) key subsets')
+        else:
+            rep.bad('MK5', fn, ds[0] if ds else fn.qualname, 'the per-contribution bound is not bound // (t+1 senders | comb(m, t) subsets): the sum of the contributions '
+                    'exceeds the intended bound (masked values wrap around the modulus) or falls short of it', fn.node)
+        # the senders really are t+1 parties
+        snd = [s for s in iter_nodes(fn.node) if isinstance(s, ast.Assign) and norm(s.targets[0]) == 'senders']
+        if snd and 'range(t + 1)' in norm(snd[0].value):
+            rep.ok('MK5', fn, snd[0], 't+1 senders contribute without PRSS')
+        else:
+            rep.bad('MK5', fn, snd[0] if snd else fn.qualname, 'the number of senders without PRSS is not t+1', fn.node)
+    fn = model.func('runtime::Runtime._convert')
+    pm = astq.parents(fn.node)
+    bs = [s for s in iter_nodes(fn.node) if isinstance(s, ast.Assign) and norm(s.targets[0]) == 'bound' and '//' in norm(s.value)]
+    for s in bs:
+        n += 1
+        g = [(norm(i.test), br) for i, br in astq.enclosing_ifs(s, pm, stop=fn.node) if 'no_prss' in norm(i.test)]
+        noprss = any((t == 'self.options.no_prss' and br == 'body') or (t == 'not self.options.no_prss' and br == 'orelse') for t, br in g)
+        dv = [x for x in ast.walk(s.value) if isinstance(x, ast.BinOp) and isinstance(x.op, ast.FloorDiv)]
+        d = norm(dv[0].right) if dv else None
+        if (noprss and d == 't + 1') or (not noprss and d == 'math.comb(m, t)'):
+            rep.ok('MK5', fn, s, f'mask contributions bounded by bound // {d} on the {"no-PRSS" if noprss else "PRSS"} path')
+        else:
+            rep.bad('MK5', fn, s, f'on the {"no-PRSS" if noprss else "PRSS"} path the mask contributions are bounded by // {d}, not by the number of contributions')
+    if n < 4:
+        raise AnalysisError('MK5: contributor-count sites not found')
